@@ -452,6 +452,19 @@ func parkedCase(k *engine.Case) {
 		}
 		ok = check(fmt.Sprintf("step %d", s))
 		k.Count("quiescent_cuts", 1)
+		{
+			mu.Lock()
+			rem := len(accepted)
+			for _, c := range cons {
+				if c.op.Done() {
+					if pr, ok := c.op.Result().(popRes); ok && pr.ok && accepted[pr.v] {
+						rem--
+					}
+				}
+			}
+			mu.Unlock()
+			k.C.ObserveStr("abstract_queue_states", fmt.Sprintf("%s parked=%d unconsumed=%d closed=%v", qu.Name(), len(parked()), rem, closeIssued))
+		}
 	}
 	if !ok {
 		qu.Close()
